@@ -544,17 +544,18 @@ func (r *replayer) run() error {
 	}
 	s := r.s
 	m := newStatement(s, pv)
-	pred, or := build(m.tree, pv.Wrap)
-	var choice map[proof.Predicate]int
-	if or != nil {
-		choice = map[proof.Predicate]int{or: pv.Choice - 1}
+	pred, ors := buildN(m.tree, pv.Wrap, pv.Nest)
+	choice := choiceMap(ors, len(m.tree), pv.Nest, pv.Choice)
+	var or proof.Predicate
+	if len(ors) > 0 {
+		or = ors[0]
 	}
 	lay := layout{pv.Items, s.PointLen(), s.ScalarLen()}
 	id := fmt.Sprintf("%s/%x", s.Name, core.Hash64(r.bh.raw))
 
 	// ---- non-interactive (Fiat-Shamir) prover / verifier
 	var rec *recorder
-	traced := r.tr != nil && r.tr.want()
+	traced := r.tr != nil && pv.Nest == 0 && r.tr.want()
 	prover := pred.Prover(s, m.px, m.pts, choice)
 	proverObj := prover // the Prover value itself (re-run below when runs > 1)
 	if traced {
@@ -600,6 +601,9 @@ func (r *replayer) run() error {
 			r.res.Skip("unwitnessed-mutation")
 			return nil
 		}
+	case "flipTop":
+		// bit 7 of the last byte of item i (r + 2^255 on a little-endian scalar, the sign bit of a compressed point, ...)
+		p2[lay.offset(mu.A-1)+lay.size(mu.A-1)-1] ^= 0x80
 	case "trunc":
 		p2 = p2[:lay.offset(mu.A)]
 	case "truncIn":
@@ -629,7 +633,7 @@ func (r *replayer) run() error {
 			return nil
 		}
 	}
-	vpred, _ := build(vtree, pv.Wrap)
+	vpred, _ := buildN(vtree, pv.Wrap, clampNest(len(vtree), pv.Nest))
 	verifier := vpred.Verifier(s, vpts)
 	verifierObj := verifier
 	var vrec *recorder
@@ -667,7 +671,7 @@ func (r *replayer) run() error {
 			if pv.Truth[c2-1] {
 				must2 = "acc"
 			}
-			q, e := proof.HashProve(s, m.name, pred.Prover(s, m.px, m.pts, map[proof.Predicate]int{or: c2 - 1}))
+			q, e := proof.HashProve(s, m.name, pred.Prover(s, m.px, m.pts, choiceMap(ors, len(m.tree), pv.Nest, c2)))
 			r.res.Eval(id + "/hash/choice2")
 			if e == nil {
 				r.judge("hash", must2, proof.HashVerify(s, m.name, verifierObj, q), map[string]any{"second_choice": c2})
@@ -676,10 +680,11 @@ func (r *replayer) run() error {
 			}
 		}
 		r.rerun = false
+		r.interleaved(s, m, pred, vpred, vpts, choice, must, id)
 	}
 
 	// ---- interactive deniable prover with the clique protocol (2 or 3 participants)
-	if r.cfg.Deniable > 0 && mu.K != "name" && mu.K != "simAll" && mu.K != "replayCh" && mu.K != "truncZeroTail" &&
+	if r.cfg.Deniable > 0 && mu.K != "name" && mu.K != "simAll" && mu.K != "replayCh" && mu.K != "truncZeroTail" && mu.K != "flipTop" &&
 		(pv.Fault != 0 || core.Hash64(fmt.Sprint(r.cfg.Seed), "den", r.bh.raw)%uint64(r.cfg.Deniable) == 0) {
 		r.deniable(m, pred, choice, vtree, vpts, pv, mu, st[len(st)-1].MustDen, lay, id, traced, den)
 		for i := 2; i <= pv.Runs && mu.K == "none"; i++ {
@@ -689,6 +694,101 @@ func (r *replayer) run() error {
 		}
 	}
 	return nil
+}
+
+// nestVerifierCtx / nestProverCtx run a callback the first time PubRand is called, i.e. in the middle of a run
+type nestVerifierCtx struct {
+	proof.VerifierContext
+	hook func()
+}
+
+func (c *nestVerifierCtx) PubRand(m ...any) error {
+	if c.hook != nil {
+		h := c.hook
+		c.hook = nil
+		h()
+	}
+	return c.VerifierContext.PubRand(m...)
+}
+
+type nestProverCtx struct {
+	proof.ProverContext
+	hook func()
+}
+
+func (c *nestProverCtx) PubRand(m ...any) error {
+	if c.hook != nil {
+		h := c.hook
+		c.hook = nil
+		h()
+	}
+	return c.ProverContext.PubRand(m...)
+}
+
+// interleaved: two runs made from ONE Predicate value overlap - run B is started from inside run A's PubRand (provers and
+// verifiers), and several verifications run concurrently; each run's verdict is Must, whatever else is in flight.
+func (r *replayer) interleaved(s *suites.S, m *statement, pred, vpred proof.Predicate, vpts map[string]kyber.Point,
+	choice map[proof.Predicate]int, must string, id string) {
+	r.rerun = true
+	defer func() { r.rerun = false }()
+	// nested provers
+	pA, pB := pred.Prover(s, m.px, m.pts, choice), pred.Prover(s, m.px, m.pts, choice)
+	var prfB []byte
+	var errB error
+	prfA, errA := proof.HashProve(s, m.name, func(ctx proof.ProverContext) error {
+		return pA(&nestProverCtx{ctx, func() { prfB, errB = proof.HashProve(s, m.name, pB) }})
+	})
+	if errA != nil || errB != nil {
+		if must == "acc" {
+			r.violate("hash", "prove-error", "a prover fails when another prover of the same Predicate value runs inside it", map[string]any{"errA": fmt.Sprint(errA), "errB": fmt.Sprint(errB)})
+		}
+		return
+	}
+	// nested verifiers (on the two proofs just made)
+	vA, vB := vpred.Verifier(s, vpts), vpred.Verifier(s, vpts)
+	var verrB error
+	verrA := proof.HashVerify(s, m.name, func(ctx proof.VerifierContext) error {
+		return vA(&nestVerifierCtx{ctx, func() { verrB = proof.HashVerify(s, m.name, vB, prfB) }})
+	}, prfA)
+	r.res.Eval(id + "/hash/nested")
+	r.judge("hash", must, verrA, map[string]any{"interleaving": "outer of two nested verifications"})
+	r.judge("hash", must, verrB, map[string]any{"interleaving": "inner of two nested verifications"})
+	// concurrent verifiers
+	var wg sync.WaitGroup
+	errsC := make([]error, 4)
+	for g := range errsC {
+		wg.Add(1)
+		go func(g int) {
+			defer wg.Done()
+			defer func() {
+				if p := recover(); p != nil {
+					errsC[g] = fmt.Errorf("panic: %v", p)
+				}
+			}()
+			v := vpred.Verifier(s, vpts)
+			for it := 0; it < 3; it++ {
+				p := prfA
+				if (g+it)%2 == 1 {
+					p = prfB
+				}
+				if e := proof.HashVerify(s, m.name, v, p); e != nil {
+					errsC[g] = e
+				}
+			}
+		}(g)
+	}
+	wg.Wait()
+	r.res.Eval(id + "/hash/concurrent")
+	for _, e := range errsC {
+		if e != nil && strings.HasPrefix(e.Error(), "panic: ") {
+			r.violate("hash", "panic", "concurrent verifications made from one Predicate value panic", map[string]any{"panic": e.Error()})
+			break
+		}
+		if must == "acc" && e != nil {
+			r.judge("hash", must, e, map[string]any{"interleaving": "concurrent verifications"})
+			break
+		}
+	}
 }
 
 // forge: a prover that knows no secret simulates every branch (commitment V = w*P + sum r*B for pre-chosen sub-challenge w
@@ -857,7 +957,7 @@ func (r *replayer) deniable(m *statement, pred proof.Predicate, choice map[proof
 				objs.vrf = map[int]proof.Verifier{}
 			}
 			if objs.vrf[i] == nil {
-				vp, _ := build(vtree, pv.Wrap)
+				vp, _ := buildN(vtree, pv.Wrap, clampNest(len(vtree), pv.Nest))
 				objs.vrf[i] = vp.Verifier(s, cpPts(vpts))
 			}
 			vrfs[0] = objs.vrf[i] // the same Verifier value in every session
